@@ -66,9 +66,13 @@ Definition status_count (m : mask) (st : status) : nat :=
 
 (** * curesourceimpl.go *)
 
-(** What ReserveResourceForWG reads from the work-group: len(wg.Wavefronts),
-    co.WFSgprCount, co.WIVgprCount, co.GroupSegmentByteSize. *)
-Record demand := mkDemand { d_nwf : nat; d_sgpr : N; d_vgpr : N; d_lds : N }.
+(** What the work-group carries: len(wg.Wavefronts), co.WFSgprCount,
+    co.WIVgprCount, co.GroupSegmentByteSize (the statically declared LDS), and
+    [d_dyn] = wg.Packet.GroupSegmentSize, the LDS size the dispatch packet asks
+    for (it includes dynamically sized LDS).  ReserveResourceForWG and
+    FreeResourcesForWG read the first four only: the command processor
+    accounts for the static LDS size on both paths. *)
+Record demand := mkDemand { d_nwf : nat; d_sgpr : N; d_vgpr : N; d_lds : N; d_dyn : N }.
 
 (** WfLocation without the wavefront pointer; offsets are in bytes as in Go. *)
 Record loc := mkLoc { l_simd : nat; l_vgpr : N; l_sgpr : N; l_lds : N }.
